@@ -237,9 +237,10 @@ def e5 : Err := ⟨"f.py", 11, 0, "", "attribute-error", "No attribute 'a' on in
 example : uniqueSortedErrors [e5, e1, e4, e2, e3, e2] = [e4, e2, e3, e5] := by decide
 example : repKeyOK [e5, e1, e4, e2, e3, e2] = true := by decide
 example : uniqueSortedErrors [e2, e3, e4, e1, e5, e2] = [e4, e2, e3, e5] := by decide
-/-- `errors_perm_partial` applies to these two orders (same order at every position: e1 … e2 … e3 vs
-e2 e3 … e1 is *not* the same order at line 7, yet the result coincides here because the shorter traceback
-replaces the longer one either way); for the distinct-position errors `errors_perm_invariant` applies: -/
+/-- (The two insertion orders above also differ in the order *at* line 7 — e1,e2,e3 vs e2,e3,e1 — and
+still give the same report, because the shorter traceback replaces the longer one either way: the guard of
+`errors_perm_partial` is sufficient, not necessary.)  For errors at pairwise distinct positions
+`errors_perm_invariant` applies and its hypotheses are satisfiable: -/
 example : uniqueSortedErrors [e5, e4, e2] = uniqueSortedErrors [e2, e5, e4] :=
   errors_perm_invariant (by decide) (by decide)
 
